@@ -60,7 +60,7 @@ func readNewestSnapshot(dir string) (found bool, idx, term uint64, data []byte) 
 	return true, md.LastIncludedIndex, md.LastIncludedTerm, data
 }
 
-var isKeys = []string{"role", "term", "vote", "log", "ci", "la", "si", "st", "cfg", "com"}
+var isKeys = []string{"role", "term", "vote", "leader", "log", "ci", "la", "si", "st", "cfg", "com", "lc"}
 
 func TestE3InstallSnapshot(t *testing.T) {
 	rep := NewReport("E3-installSnapshot")
